@@ -455,7 +455,9 @@ fn eof_at(k: usize, o: &Opts, props: &FieldTable, kind: InEnd, res: &mut CaseRes
     if k < l0 {
         accept.push(sock);
     } else if k == l0 {
-        accept.push("InvalidCredentials".into());
+        // the stream ends right behind Start, in the very read pass that delivered it: the
+        // client's StartOk has not left yet, so this cannot be the broker rejecting credentials
+        accept.push(sock);
     } else if k < l1 {
         // dropped after StartOk in the middle of the reply: either reading is reasonable
         accept.push("InvalidCredentials".into());
@@ -512,12 +514,38 @@ pub fn run(rc: &mut RunCtx) {
         run_script(&o, &s, &props, seg, wfrag, &mut res);
         rc.end(res);
     }
+    // a connection_timeout between one and two heartbeat intervals, server silent after Tune:
+    // the timeout has to fire although the heartbeat timers keep waking the loop up
+    for (i, t) in [1300u64, 1700, 1500, 1900].iter().enumerate().take(rc.n(2, 4) as usize) {
+        let id = format!("hb-timeout:{}", t);
+        if !rc.mine(&id) {
+            continue;
+        }
+        rc.begin_with_timeout(&id, Duration::from_secs(60));
+        let mut res = CaseResult::new(id);
+        let mut r = Rng::for_case(seed, 16, 888_000 + i as u64);
+        let o = Opts { auth: 0, user: "u".into(), pass: "p".into(), locale: "en_US".into(), vhost: "/".into(), information: None, timeout_ms: Some(*t), channel_max: 0, frame_max: 0, heartbeat: 1 };
+        let props = server_props(&mut r);
+        let s = Script {
+            steps: [vec![Srv::Send(start_frame("PLAIN", "en_US", &props), "Start")], vec![Srv::Send(tune_frame(0, 131072, 60), "Tune")], vec![Srv::Silence]],
+            expect: "ConnectionTimeout".into(),
+            alt: vec![],
+            label: format!("silence instead of OpenOk, heartbeat 1 s, connection_timeout {} ms", t),
+        };
+        res.sig = crate::rng::fnv_str(&s.label);
+        res.sample = Some(json!({"server": s.label, "expect": s.expect}));
+        run_script(&o, &s, &props, Segmenter::Whole, (usize::MAX, 0), &mut res);
+        rc.end(res);
+    }
     // stream ends at a byte offset of the complete server stream
     let mut r = Rng::for_case(seed, 16, 999_999);
     let o = Opts { auth: 0, user: "".into(), pass: "".into(), locale: "en_US".into(), vhost: "/".into(), information: None, timeout_ms: Some(3000), channel_max: 0, frame_max: 0, heartbeat: 0 };
     let props = server_props(&mut r);
     let total = start_frame("PLAIN", "en_US", &props).len() + tune_frame(0, 131072, 60).len() + open_ok_frame().len();
-    let offsets: Vec<usize> = if rc.quick() { (0..30).map(|_| r.usize(0, total)).collect() } else { (0..=total).collect() };
+    let l0 = start_frame("PLAIN", "en_US", &props).len();
+    let l1 = l0 + tune_frame(0, 131072, 60).len();
+    // (quick: a sample of offsets plus the frame boundaries themselves)
+    let offsets: Vec<usize> = if rc.quick() { (0..30).map(|_| r.usize(0, total)).chain([0, l0, l1, total]).collect() } else { (0..=total).collect() };
     if !rc.quick() {
         rc.note("exhaustive_over", json!("EOF and reset at every byte offset of the server's handshake stream"));
     }
